@@ -10,7 +10,8 @@ import time
 from vx import typegen as tg, values as V
 from vx.report import Report, run_parallel, tier, seed
 from vx.wenv import ConcEnv
-from checks import wmode
+from checks import wmode, hmode
+from vx import hybrid as HY
 
 try:
     import z3
@@ -29,6 +30,11 @@ CONC_DEFAULTS = {
 
 def sample_value(t, gen):
     g = V.Gen(gen.get("variant", 0), gen.get("dim", 2), gen.get("nullrefs", False))
+    if HY.is_h(t):
+        v = g.sample(HY.xo_ast(t))
+        if gen.get("defaults"):
+            v = hmode.with_defaults(t, v, gen["defaults"])
+        return v
     return g.sample(t)
 
 
@@ -47,6 +53,8 @@ def norm_what(what):
 def shape_class(t):
     """coarse class of a type for finding signatures"""
     k = t[0]
+    if k == "hybrid":
+        return "H:" + shape_class(HY.xo_ast(t))
     if k == "scalar":
         return "s"
     if k == "string":
@@ -249,7 +257,50 @@ PLACEMENTS_T = PLACEMENTS_Q + [
 ]
 
 
+def plan_hybrid(pid, tr, sd):
+    pls = PLACEMENTS_Q if tr == "quick" else PLACEMENTS_T
+    jobs = []
+    g0 = dict(variant=0, dim=2)
+    for i, (label, spec) in enumerate(HY.catalogue(tr)):
+        if pid == "C18":
+            hs = [
+                [("set", 0), ("setx", 1), ("seta", 0), ("set", 2)],
+                [("assign_nested", 0, "other"), ("set", 1), ("assign_nested", 1, "same")],
+                [("assign_ref", 0, "same"), ("setx", 0), ("assign_ref", 1, "other")],
+                [("copy", "same"), ("set", 0), ("copy", "other")],
+                [("move", "other"), ("set", 1), ("seta", 1, "nd"), ("move_nested", 0)],
+                [("assign_nested", 0, "same"), ("move", "other"), ("setx", 2), ("copy", "default")],
+                [("assign_ref", 0, "other"), ("set", 0)],
+                [("move_nested", 1), ("move", "same"), ("assign_nested", 1, "other")],
+            ]
+            if tr == "thorough":
+                hs += [
+                    [("seta", 0), ("move", "other"), ("seta", 0, "nd"), ("copy", "same"), ("assign_nested", 0, "other")],
+                    [("assign_ref", 1, "same"), ("copy", "other"), ("assign_ref", 0, "same"), ("move", "other")],
+                    [("setx", 0), ("setx", 1), ("move", "other"), ("move", "other"), ("set", 3)],
+                ]
+            for k, h in enumerate(hs):
+                for nested in (("dict", "dressed") if tr == "thorough" else (("dict", "dressed")[(i + k) % 2],)):
+                    jobs.append((pid, "c18", label, spec, g0, dict(pls[(i + k) % 2] if tr == "quick" else pls[(i + k) % len(pls)], history=h, nested=nested)))
+                # running out of space / growth while the history runs: capacity 0 (every allocation grows), and an
+                # arbitrary free chunk that may or may not fit each allocation (solver forks per allocation)
+                jobs.append((pid, "c18", label, spec, g0, dict(pls[4], history=h, nested="dict")))
+                if tr == "thorough" or (i + k) % 4 == 0:
+                    jobs.append((pid, "c18", label, spec, g0, dict(placement="default", N=1, alignment=8, tight=True, history=h, nested="dressed", max_paths=200)))
+    out = []
+    for j in jobs:
+        cfg = j[5]
+        if cfg.get("placement") == "context":
+            cfg = dict(cfg, placement="default", N=1, alignment=8)
+        if cfg.get("N", 0) >= 1 and cfg.get("placement") != "grown" and not cfg.get("tight"):
+            cfg = dict(cfg, roomy=1 << 14)
+        out.append(j[:5] + (cfg,))
+    return out
+
+
 def plan(pid, tr, sd):
+    if pid in ("C18",):
+        return plan_hybrid(pid, tr, sd)
     cat = tg.catalogue("quick", sd)
     if tr == "thorough":
         import random
@@ -412,7 +463,7 @@ def xo_array_fns():
     return [xo.array.MetaArray.__new__, xa.get_strides, xa.get_offset, xa.bound_check, xa.rewrite_item, xo.struct.MetaStruct.__new__, xo.Struct._set_offsets, xo.string.MetaString._inspect_args]
 
 
-LEVELS = {p: "model_checking" for p in ("C01", "C03", "C05", "C06", "C08", "C09", "C10", "C11", "C20")}
+LEVELS = {p: "model_checking" for p in ("C01", "C03", "C05", "C06", "C08", "C09", "C10", "C11", "C20", "C18", "C19")}
 
 
 def main(pid):
